@@ -21,7 +21,7 @@ CHECKS = {
     },
 }
 
-HOOK_COMMITS = []
+HOOK_COMMITS = ["c688b16 verif hook: m_map_verif_slot (Lib/structs/map.c, guarded by LIBMODULE_VERIF): reports home slot / current slot / table size of a key; used only to steer key and module-name generation and to classify cases"]
 NOT_APPLICABLE = {}
 ENGINES = [
     {"name": "A-structs", "path": "harness/structs", "serves_properties": ["C05", "C10", "C11", "C12"],
@@ -103,7 +103,7 @@ _B_NOTE = "Trusts: the lock-step reference model (harness/actor, written from th
 def _metaB(pid, sec, text):
     META[pid] = {"engine": "B-actor", "design_ref": "DESIGN.md section 4 (%s)" % sec,
                  "technique": "rapidcheck stateful / model-based testing of generated actor programs with re-entrant callback scripts against a lock-step reference model (fork per case, ASan/UBSan)",
-                 "level_text": text + " Holds for the explored programs only (<= 4 modules, <= 45 top-level ops, scripts <= 4 ops); dispatch-driven loop.",
+                 "level_text": text + " Holds for the explored programs only (<= 4 modules, <= 70 top-level ops, callback scripts <= 4 re-entrant ops, nesting depth <= 4); both driving modes (harness-issued m_ctx_dispatch calls and a blocking m_ctx_loop run by a driver module); injected polling faults; thorough tier adds a coverage-guided libFuzzer campaign over byte-decoded programs.",
                  "level_note": _B_NOTE}
 _metaB("C01", "C01", "Life-cycle calls in every state (about half illegal), callbacks that refuse / stop / deregister re-entrantly, evaluation passes: each return code, each start/stop/eval/handler callback and every state/running-count probe is checked against the documented state machine.")
 _metaB("C02", "C02", "Sends of all kinds over literal and regex subscriptions in mixed module states, floods beyond the pipe size, auto-free payloads: eligibility sets computed by the model at send time, every delivered event matched against the recipient's mailbox, loop-end delivery obligation, payload release accounting.")
